@@ -18,3 +18,11 @@ package utils
 //@   requires p != nil
 //@   modifies *p
 //@   ensures *p == ite(old(*p) <= 0, d, old(*p))
+
+// SplitString2 (C12): cuts s at the FIRST occurrence of symbol.
+//@ func SplitString2 [C12]
+//@   log SplitString2
+//@   ensures len(symbol) == 0 ==> s1 == "" && s2 == s && ok
+//@   ensures len(symbol) > 0 ==> ok == (sindex(s, symbol) >= 0)
+//@   ensures len(symbol) > 0 && ok ==> s1 == s[0 : sindex(s, symbol)] && s2 == s[sindex(s, symbol) + len(symbol) : len(s)]
+//@   ensures len(symbol) > 0 && !ok ==> s1 == "" && s2 == ""
